@@ -45,6 +45,10 @@ func isIntType(t string) bool { _, ok := intBounds[t]; return ok }
 
 // DecimalCanon normalises unscaled*10^-scale to a canonical decimal string.
 func DecimalCanon(unscaled *big.Int, scale uint32) string {
+	if scale > 1000 {
+		// not a decimal64 (at most 18 fraction digits): do not try to scale it
+		return fmt.Sprintf("<decimal %se-%d>", unscaled.String(), scale)
+	}
 	r := new(big.Rat).SetFrac(unscaled, new(big.Int).Exp(big.NewInt(10), big.NewInt(int64(scale)), nil))
 	return ratCanon(r)
 }
